@@ -204,7 +204,7 @@ func c03GenQuery(t *rapid.T, tok int, outcome string) (*vfkit.Msg, bool) {
 }
 
 func TestVfC03(t *testing.T) {
-	st := vfkit.Stats("TestVfC03", "batches of (listener kind in 8, decodable QR=0 query with any opcode/flags/0-3 questions/any type+class/mixed-case names up to 255 octets/extra records/OPT, upstream outcome in {reply, error rcode, garbage, truncated frame, accept-then-close, dead port, silence, no rule, rule without action}) against two proxies (cache off/on), all in flight together; oracle per query: exactly one response within 8 s with the query's ID/opcode/RD, QR=1, RA=1, <=1 question equal to the first one, rcode per reference (NOTIMP / REFUSED / upstream's / SERVFAIL); non-trivial = outcome other than a plain reply, or unsupported query")
+	st := vfkit.Stats("TestVfC03", "batches of (listener kind in 8, decodable QR=0 query with any opcode/flags/0-3 questions/any type+class/mixed-case names up to 255 octets/extra records/OPT, upstream outcome in {reply, error rcode, garbage, truncated frame, accept-then-close, dead port, silence, no rule, rule without action}) against two proxies (cache off/on), all in flight together; with the cache on up to 8 answered questions per batch are then asked again (other ID, inverted letter case, other header bits, OPT toggled, any listener); oracle per query: exactly one response within 8 s with the query's ID/opcode/RD, QR=1, RA=1, <=1 question equal to the first one, rcode per reference (NOTIMP / REFUSED / upstream's / SERVFAIL); non-trivial = outcome other than a plain reply, or unsupported query")
 	defer vfkit.Flush()
 	env := c03Setup(t)
 	defer func() {
@@ -276,9 +276,11 @@ func TestVfC03(t *testing.T) {
 			}(c)
 		}
 		wg.Wait()
-		for _, c := range cases {
-			env.scripts.Delete(c.token)
-		}
+		defer func() {
+			for _, c := range cases {
+				env.scripts.Delete(c.token)
+			}
+		}()
 		if p.Exited() || p.Crashed() != "" {
 			t.Fatalf("proxy died: exit=%v code=%d\n%s", p.Exited(), p.ExitCode, tail(p.Stderr(), 3000))
 		}
@@ -329,6 +331,112 @@ func TestVfC03(t *testing.T) {
 			st.Case(vfkit.Fingerprint(c.query, c.listener, c.outcome), nontrivial, []string{"listener=" + c.listener, "outcome=" + oc}, func() any {
 				return map[string]any{"listener": c.listener, "outcome": c.outcome, "unsupported": c.unsupported, "rcode": r.Rcode(), "took_ms": c.took.Milliseconds(), "query": vfkit.Hex(c.query)}
 			})
+		}
+		// Second round (cache on): the questions that were answered are asked again - other ID, the letters' case inverted,
+		// other header bits, OPT presence toggled, any listener. Whether the answer now comes from the cache or from the
+		// upstream, the response must echo THIS query (ID, opcode, RD, question as sent), not the one that filled the cache.
+		if cacheOn {
+			again := 0
+			for _, c := range cases {
+				if again >= 8 {
+					break
+				}
+				if c.outcome != "reply" || c.unsupported || len(c.res.Resps) != 1 || c.res.Resps[0].Msg.Has(vfkit.BitTC) {
+					continue
+				}
+				again++
+				q := c.model.Q[0]
+				inv := make(vfkit.Name, len(q.Name))
+				for i, l := range q.Name {
+					b := append([]byte(nil), l...)
+					for j := range b {
+						switch {
+						case 'a' <= b[j] && b[j] <= 'z':
+							b[j] -= 32
+						case 'A' <= b[j] && b[j] <= 'Z':
+							b[j] += 32
+						}
+					}
+					inv[i] = b
+				}
+				m2 := &vfkit.Msg{ID: c.model.ID ^ 0x5a5a, Bits: vfkit.BitRD | (^c.model.Bits & (vfkit.BitAD | vfkit.BitCD | vfkit.BitAA)), Q: []vfkit.Question{{Name: inv, Type: q.Type, Class: q.Class}}}
+				if c.model.Opt() == nil {
+					m2.Ar = append(m2.Ar, vfkit.RR{Type: 41, Class: 1232})
+				}
+				listener := rapid.SampledFrom(AllListenerKinds).Draw(t, "secondListener")
+				wire := EncodeMsg(m2)
+				if len(wire) > 1200 && listener == "udp" {
+					listener = "tcp"
+				}
+				a := NewAsker(env.ip[cacheOn], "")
+				res := a.Ask(listener, wire, 9*time.Second, 40*time.Millisecond)
+				if listener == "udp" && len(res.Resps) == 0 && res.Err == nil {
+					res = a.Ask(listener, wire, 9*time.Second, 40*time.Millisecond)
+				}
+				a.Close()
+				desc := fmt.Sprintf("second ask (first via %s, now via %s) query=%s first query=%s", c.listener, listener, m2.String(), c.model.String())
+				if res.Err != nil || len(res.Resps) != 1 {
+					t.Fatalf("%d responses (err %v); %s", len(res.Resps), res.Err, desc)
+				}
+				r := res.Resps[0].Msg
+				if !r.Clean() || r.ID != m2.ID || r.Opcode() != 0 || !r.Has(vfkit.BitQR) || !r.Has(vfkit.BitRA) || !r.Has(vfkit.BitRD) {
+					t.Fatalf("response header %04x id %d does not match the second query (id %d, RD=1); %s", r.Bits, r.ID, m2.ID, desc)
+				}
+				if len(r.Q) != 1 || !r.Q[0].Name.EqualFold(inv) || r.Q[0].Type != q.Type || r.Q[0].Class != q.Class {
+					t.Fatalf("response question differs from the second query's question; %s", desc)
+				}
+				if r.Rcode() != 0 {
+					t.Fatalf("rcode %d for a question that was answered a moment ago; %s", r.Rcode(), desc)
+				}
+				if !r.Has(vfkit.BitTC) {
+					rd, _, _, ok := ParseKeyed(r)
+					if !ok || string(rd) != string(KeyedRData(q.Name, q.Type, q.Class, "c03")) {
+						t.Fatalf("answer is not the answer to this question; %s", desc)
+					}
+				}
+				st.Case(vfkit.Fingerprint(wire, listener, "again"), true, []string{"listener=" + listener, "outcome=asked-again"}, func() any {
+					return map[string]any{"listener": listener, "outcome": "asked-again", "query": vfkit.Hex(wire)}
+				})
+				// and a sibling question - same name, another class or type - which must not be answered with the entry of
+				// the first (its response carries its own question and the upstream's answer to it)
+				sib := vfkit.Question{Name: inv, Type: q.Type, Class: q.Class}
+				if rapid.Bool().Draw(t, "siblingByClass") {
+					sib.Class = map[uint16]uint16{1: 3, 3: 1}[q.Class]
+					if sib.Class == 0 {
+						sib.Class = 1
+					}
+				} else {
+					sib.Type = map[uint16]uint16{1: 28, 28: 1}[q.Type]
+					if sib.Type == 0 {
+						sib.Type = 1
+					}
+				}
+				if sib.Type != q.Type || sib.Class != q.Class {
+					m3 := &vfkit.Msg{ID: c.model.ID ^ 0x3c3c, Bits: vfkit.BitRD, Q: []vfkit.Question{sib}}
+					w3 := EncodeMsg(m3)
+					l3 := listener
+					a3 := NewAsker(env.ip[cacheOn], "")
+					res3 := a3.Ask(l3, w3, 9*time.Second, 40*time.Millisecond)
+					if l3 == "udp" && len(res3.Resps) == 0 && res3.Err == nil {
+						res3 = a3.Ask(l3, w3, 9*time.Second, 40*time.Millisecond)
+					}
+					a3.Close()
+					d3 := fmt.Sprintf("sibling question %s asked via %s after %s was answered", sib.String(), l3, q.String())
+					if res3.Err != nil || len(res3.Resps) != 1 {
+						t.Fatalf("%d responses (err %v); %s", len(res3.Resps), res3.Err, d3)
+					}
+					r3 := res3.Resps[0].Msg
+					if !r3.Clean() || r3.ID != m3.ID || len(r3.Q) != 1 || !r3.Q[0].Name.EqualFold(inv) || r3.Q[0].Type != sib.Type || r3.Q[0].Class != sib.Class {
+						t.Fatalf("the response does not carry the sibling's own ID and question (got id %d question %v); %s", r3.ID, r3.Q, d3)
+					}
+					if r3.Rcode() == 0 && !r3.Has(vfkit.BitTC) {
+						rd, _, _, ok := ParseKeyed(r3)
+						if !ok || string(rd) != string(KeyedRData(sib.Name, sib.Type, sib.Class, "c03")) {
+							t.Fatalf("the answer is not the upstream's answer to the sibling question; %s", d3)
+						}
+					}
+				}
+			}
 		}
 	})
 }
